@@ -25,10 +25,10 @@ from pybrops.popgen.gmat.DenseGenotypeMatrix import DenseGenotypeMatrix
 PROP = "C14"
 RUNS = {"quick": 24000, "thorough": 300000}
 WALL = {"quick": 200, "thorough": 2400}
-RULE = ("scenario = population (1-8 taxa, taxa groups present or not), additive model (1-3 traits), nenv 1-4, nrep scalar or per environment (1-3), "
+RULE = ("scenario = population (1-8 taxa, diploid or tetraploid, taxa groups present or not), additive or additive+dominance model (1-3 traits, 1-3 fixed effects), protocol used directly or through copy / deepcopy / HDF5 round trip (root or group), nenv 1-4, nrep scalar or per environment (1-3), "
         "variance setting (all zero | no error | general; scalar or per trait, zeros mixed in), optional set_h2/set_H2 target, generator kind; then "
         "phenotype() and MeanPhenotypicBreedingValue.estimate() on the row-shuffled table with genotype taxa permuted, subsetted, repeated and extended by "
-        "unphenotyped taxa; distinct = (variance class, nenv, nrep form, h2 step, label presence, genotype-taxa transformation); non-trivial = table produced")
+        "unphenotyped taxa; distinct = (variance class, nenv, nrep form, h2 step, label presence, genotype-taxa transformation, how the protocol was obtained, model kind, ploidy, fixed effects); non-trivial = table produced")
 COMPONENTS = {"real": ["G_E_Phenotyping (phenotype, set_h2, set_H2)", "MeanPhenotypicBreedingValue.estimate", "DenseAdditiveLinearGenomicModel.gegv/var_A/var_G", "pandas groupby/mean"],
               "stub": ["generator subclass recording multivariate_normal requests (sim.rngseam)"]}
 ASSUMPTIONS = ["NumPy's multivariate_normal is trusted to realise the covariance it is asked for: convergence of realised variances is decided by checking the requested covariances exactly and that the recorded draws are what the records contain",
@@ -403,7 +403,8 @@ def execute(sc):
 def _out(sc, V, log, faults, probes, ran):
     f = dict(faults)
     f["variance_class_" + sc["vclass"]] = 1
-    trace = "%s|env%d|rep%s|h2=%s|grp=%s|drop%d|extra%d|%s" % (sc["vclass"], sc["nenv"], "a" if isinstance(sc["nrep"], list) else "s", sc["h2"]["which"] if sc["h2"] else None,
-                                                              sc["world"]["taxa_grp"], sc["est"]["drop"], sc["est"]["extra"], sc["rng"]["kind"])
+    trace = "%s|env%d|rep%s|h2=%s|grp=%s|drop%d|extra%d|%s|%s|%s|x%s|f%s|dup%s" % (sc["vclass"], sc["nenv"], "a" if isinstance(sc["nrep"], list) else "s", sc["h2"]["which"] if sc["h2"] else None,
+                                                              sc["world"]["taxa_grp"], sc["est"]["drop"], sc["est"]["extra"], sc["rng"]["kind"], sc.get("carry"), sc["world"].get("model"),
+                                                              sc["world"].get("ploidy"), sc["world"].get("nfixed"), sc["est"].get("dup"))
     return {"violations": V, "log": log, "trace": trace, "nontrivial": ran, "faults": f, "probes": probes,
             "sim": {"records": (sc["world"]["ntaxa"] * (sc["nenv"] * sc["nrep"] if isinstance(sc["nrep"], int) else sum(sc["nrep"]))) if ran else 0}}
